@@ -366,6 +366,23 @@ class ESME:
             self._logger.debug('Connection keeper cancelled')
             raise
 
+    async def _wait_until_bound(self) -> None:
+        '''
+        Waits until the session is bound. Raises ConnectionError if the ESME is shut down instead:
+        nothing will bind a session again then.
+        '''
+        if self._bound.is_set():
+            return
+        bound: Task = asyncio.ensure_future(self._bound.wait())
+        shut_down: Task = asyncio.ensure_future(self._shut_down.wait())
+        try:
+            await asyncio.wait({bound, shut_down}, return_when=asyncio.FIRST_COMPLETED)
+        finally:
+            bound.cancel()
+            shut_down.cancel()
+        if not self._bound.is_set():
+            raise ConnectionError('ESME is shut down')
+
     async def _send_data(self, smpp_message: SmppMessage) -> None:
         '''
         Sends PDU's to SMSC over a network connection.
@@ -386,7 +403,7 @@ class ESME:
         # Only bind-type commands can be sent in open state.
         # Otherwise, wait until we are in bound state.
         if not isinstance(smpp_message, (BindTransmitter, BindReceiver, BindTransceiver)):
-            await self._bound.wait()
+            await self._wait_until_bound()
 
         if smpp_message.smpp_command in COMMAND_RESPONSE_MAP:
             # This is a request. A new sequence number must be generated,
@@ -406,7 +423,7 @@ class ESME:
         if not isinstance(smpp_message, (BindTransmitter, BindReceiver, BindTransceiver)):
             # The connection may have been replaced while the hook was running:
             # nothing but the bind request may be written before the new one is bound
-            await self._bound.wait()
+            await self._wait_until_bound()
 
         # We use writer.drain() which is a flow control method that interacts with the
         # IO write buffer. When the size of the buffer reaches the high watermark,
